@@ -12,6 +12,7 @@ import inspect
 import re
 import sys
 
+import crosshair.core_and_libs  # noqa: F401  (runs the library registrations first)
 from crosshair import core
 from crosshair.core import deep_realize, realize
 from crosshair.libimpl import builtinslib as bl
@@ -136,10 +137,48 @@ def _install_decstr():
 # ---------------------------------------------------------------------------------------------
 
 
+_INT_NEW_HANDLERS = {}  # class -> factory(symbolic int) for int subclasses
+_STR_NEW_HANDLERS = {}  # class -> factory(symbolic str) for str subclasses
+
+
+def _install_new_patches():
+    """`int.__new__(cls, sym)` / `str.__new__(cls, sym)` for registered pptx subclasses return a
+    symbolic stand-in carrying the subclass's own properties, so that the *real* `__new__`
+    bodies (e.g. PackURI's leading-slash check) still execute under tracing.
+
+    CrossHair normalises an explicit `str.__new__(...)` call to the key `type.__new__` with
+    binding target `str` (tracers.normalize_call_target), so the patch is registered there and
+    dispatches on the binding target."""
+
+    def _type_new(bound, *a, **k):
+        with NoTracing():
+            h = None
+            if len(a) == 2 and not k and isinstance(a[0], type):
+                cls, val = a
+                if bound is int and isinstance(val, bl.SymbolicInt):
+                    table = _INT_NEW_HANDLERS
+                elif bound is str and isinstance(val, bl.AnySymbolicStr):
+                    table = _STR_NEW_HANDLERS
+                else:
+                    table = None
+                if table:
+                    for c, f in table.items():
+                        if issubclass(cls, c):
+                            h = f
+                            break
+                if h is not None:
+                    return h(val)
+            return bound.__new__(*a, **k)
+
+    core.register_patch(type.__new__, _type_new)
+
+
 def install_length_stub():
+    """Contract: Length(n) (Emu, Pt, ...) behaves as the int n with Length's own unit properties.
+    isinstance(v, Length) is False for the stand-in (stated in DESIGN.md 4.2)."""
     import pptx.util as u
 
-    if getattr(u.Length, "_verif_stubbed", False):
+    if getattr(u, "SymLength", None) is not None:
         return
     ns = {
         k: v
@@ -147,16 +186,30 @@ def install_length_stub():
         if isinstance(v, property) or k.startswith("_EMUS")
     }
     SymLength = type("SymLength", (bl.SymbolicInt,), ns)
-
-    def _new(cls, emu):
-        with NoTracing():
-            if isinstance(emu, bl.SymbolicInt):
-                return SymLength(emu.var)
-        return int.__new__(cls, emu)
-
-    u.Length.__new__ = staticmethod(_new)
-    u.Length._verif_stubbed = True
     u.SymLength = SymLength
+    _INT_NEW_HANDLERS[u.Length] = lambda sym: SymLength(sym.var)
+
+
+def install_packuri_stub():
+    """Contract: PackURI(s) behaves as the str s with PackURI's own properties and methods."""
+    import pptx.opc.packuri as pu
+
+    if getattr(pu, "SymPackURI", None) is not None:
+        return
+    ns = {
+        k: v
+        for k, v in vars(pu.PackURI).items()
+        if k not in ("__new__", "__dict__", "__weakref__", "__doc__", "__module__")
+    }
+    SymPackURI = type("SymPackURI", (bl.LazyIntSymbolicStr,), ns)
+    pu.SymPackURI = SymPackURI
+
+    def mk(sym):
+        if isinstance(sym, DecStr):
+            return SymPackURI(sym._codepoints)
+        return SymPackURI(sym._codepoints)
+
+    _STR_NEW_HANDLERS[pu.PackURI] = mk
 
 
 # ---------------------------------------------------------------------------------------------
@@ -242,6 +295,49 @@ def _sym_percent(self, other):
 def _install_percent():
     if str.__mod__ in core._PATCH_REGISTRATIONS:
         core._PATCH_REGISTRATIONS[str.__mod__] = _sym_percent
+
+    # f-strings / repr() / format() / str.format of a symbolic value while building an exception
+    # message: placeholder instead of realization (message texts are outside every claim).
+    orig_repr = core._PATCH_REGISTRATIONS.get(repr)
+    orig_format = core._PATCH_REGISTRATIONS.get(format)
+    orig_str_format = core._PATCH_REGISTRATIONS.get(str.format)
+
+    def _repr(obj):
+        with NoTracing():
+            if isinstance(obj, core.CrossHairValue):
+                fr = _caller_frame()
+                if fr is not None and _in_raise(fr.f_code.co_filename, fr.f_lineno):
+                    return PLACEHOLDER
+        return orig_repr(obj)
+
+    def _format(obj, format_spec=""):
+        with NoTracing():
+            sym = isinstance(obj, core.CrossHairValue)
+            if sym:
+                fr = _caller_frame()
+                if fr is not None and _in_raise(fr.f_code.co_filename, fr.f_lineno):
+                    return PLACEHOLDER
+            plain_int = sym and isinstance(obj, bl.SymbolicInt) and format_spec in ("", "d")
+        if plain_int:
+            return str(obj)
+        return orig_format(obj, format_spec)
+
+    def _str_format(self, *a, **k):
+        with NoTracing():
+            if any(isinstance(x, core.CrossHairValue) for x in a) or any(
+                isinstance(x, core.CrossHairValue) for x in k.values()
+            ):
+                fr = _caller_frame()
+                if fr is not None and _in_raise(fr.f_code.co_filename, fr.f_lineno):
+                    return PLACEHOLDER
+        return orig_str_format(self, *a, **k)
+
+    if orig_repr is not None:
+        core._PATCH_REGISTRATIONS[repr] = _repr
+    if orig_format is not None:
+        core._PATCH_REGISTRATIONS[format] = _format
+    if orig_str_format is not None:
+        core._PATCH_REGISTRATIONS[str.format] = _str_format
 
 
 # ---------------------------------------------------------------------------------------------
@@ -359,4 +455,5 @@ def install():
     _install_decstr()
     _install_percent()
     _install_attr_tracing()
+    _install_new_patches()
     install_normpath()
